@@ -9,7 +9,7 @@ s = open(p).read()
 assert old in s, "pattern not found"
 open(p, 'w').write(s.replace(old, new, 1))
 try:
-    r = subprocess.run(['python3', '/verif/vcheck.py', pid, '--tier', tier], stdout=subprocess.PIPE, stderr=subprocess.STDOUT, text=True)
+    r = subprocess.run(['python3', '/verif/vcheck.py', pid, '--tier', tier], stdout=subprocess.PIPE, stderr=subprocess.STDOUT, text=True, env=dict(os.environ, VP_DEV='1'))
     print(r.stdout[-3000:]); print("exit", r.returncode)
 finally:
     subprocess.run(['git', '-C', '/repo', 'checkout', '--', '.'])
